@@ -89,23 +89,20 @@ func (w *world) reverseConnect(who, addr, id string, kind string, dialNo int) {
 	case "hello":
 		_ = ccb.WriteReverseConnect(w.bg, st, id, "req-1", "<10.0.9.9:1>")
 	case "noid", "intid":
-		// a well-framed reverse-connect hello whose ad has no ClaimId, or one that is not a string
 		c.presented = "(" + kind + ")"
-		ad := classad.New()
-		_ = ad.Set(ccb.AttrRequestID, "req-1")
-		_ = ad.Set(ccb.AttrMyAddress, "<10.0.9.9:1>")
-		if kind == "intid" {
-			_ = ad.Set(ccb.AttrClaimID, 7)
-		}
-		m := message.NewMessageForStream(st)
-		_ = m.PutInt(w.bg, ccb.CommandReverseConnect)
-		_ = m.PutClassAdWithOptions(w.bg, ad, &message.PutClassAdConfig{Options: message.PutClassAdIncludePrivate})
-		_ = m.FinishMessage(w.bg)
+		w.helloWithoutID(st, kind)
 	case "garbage":
 		_, _ = ep.Write([]byte("\x01\x00\x00\x00\x10GARBAGE-NOT-CEDAR"))
 	case "close":
 		ep.Close()
 		return
+	case "halfclose":
+		// says nothing and shuts down its sending side only: the dialer reads a clean end-of-file
+		// from a connection that is still established
+		_ = ep.CloseWrite()
+	case "halfclose-partial":
+		_, _ = ep.Write([]byte{1, 0, 0})
+		_ = ep.CloseWrite()
 	case "silent":
 	}
 	// hold the connection open and see what the dialer does with it
@@ -115,6 +112,24 @@ func (w *world) reverseConnect(who, addr, id string, kind string, dialNo int) {
 			return
 		}
 	}
+}
+
+// helloWithoutID writes a well-framed reverse-connect hello whose ad has no ClaimId ("noid"),
+// an empty one ("emptyid") or one that is not a string ("intid").
+func (w *world) helloWithoutID(st *stream.Stream, kind string) {
+	ad := classad.New()
+	_ = ad.Set(ccb.AttrRequestID, "req-1")
+	_ = ad.Set(ccb.AttrMyAddress, "<10.0.9.9:1>")
+	switch kind {
+	case "intid":
+		_ = ad.Set(ccb.AttrClaimID, 7)
+	case "emptyid":
+		_ = ad.Set(ccb.AttrClaimID, "")
+	}
+	m := message.NewMessageForStream(st)
+	_ = m.PutInt(w.bg, ccb.CommandReverseConnect)
+	_ = m.PutClassAdWithOptions(w.bg, ad, &message.PutClassAdConfig{Options: message.PutClassAdIncludePrivate})
+	_ = m.FinishMessage(w.bg)
 }
 
 func (w *world) runBroker(i int, bp *brokerPlan, ln *simnet.Listener) {
@@ -162,7 +177,11 @@ func (w *world) runBroker(i int, bp *brokerPlan, ln *simnet.Listener) {
 						id = "deadbeef" + id
 					}
 				}
-				if bp.proxyID != "none" {
+				if bp.proxyID == "noid" || bp.proxyID == "emptyid" || bp.proxyID == "intid" {
+					// the spliced hello carries no usable id at all
+					w.helloWithoutID(st, bp.proxyID)
+					w.connectors = append(w.connectors, &connector{who: fmt.Sprintf("proxy-broker%d:%s", i, bp.proxyID), presented: "(" + bp.proxyID + ")", ep: conn.(*simnet.Endpoint), dialNo: rq.dialNo})
+				} else if bp.proxyID != "none" {
 					_ = ccb.WriteReverseConnect(w.bg, st, id, "req-1", "<10.0.9.9:1>")
 					w.connectors = append(w.connectors, &connector{who: fmt.Sprintf("proxy-broker%d:%s", i, bp.proxyID), presented: id, ep: conn.(*simnet.Endpoint), dialNo: rq.dialNo})
 				}
@@ -249,7 +268,7 @@ func run(s *kernel.Sim, c *scen.Case) {
 		bp.reply = kernel.Pick(t, "reply", "success", "failure", "none")
 		bp.connect = kernel.Pick(t, "connect", "legit", "legit", "none", "wrongid", "stale", "cross")
 		bp.delayMs = kernel.Pick(t, "delay", 0, 0, 100, 400, 3000)
-		bp.proxyID = kernel.Pick(t, "proxyid", "right", "right", "wrong", "none")
+		bp.proxyID = kernel.Pick(t, "proxyid", "right", "right", "right", "wrong", "none", "noid", "emptyid", "intid")
 		if bp.reply == "failure" {
 			bp.connect = "none" // an honest-looking broker that reports failure does not also connect
 		}
@@ -291,7 +310,7 @@ func run(s *kernel.Sim, c *scen.Case) {
 			w.dialNo = d
 			// rogues aim at this dial's listener as soon as a broker has learnt its address
 			for r := 0; r < nrogues; r++ {
-				kind := kernel.Pick(t, "rogue", "wrongid", "emptyid", "garbage", "close", "silent", "stale", "prefix", "extended", "upper", "noid", "intid")
+				kind := kernel.Pick(t, "rogue", "wrongid", "emptyid", "garbage", "close", "halfclose", "halfclose-partial", "silent", "stale", "prefix", "extended", "upper", "noid", "intid")
 				d, r := d, r
 				s.Go(fmt.Sprintf("rogue%d.%d", d, r), func() {
 					var rq *request
@@ -322,7 +341,7 @@ func run(s *kernel.Sim, c *scen.Case) {
 						}
 					case "noid", "intid":
 						k = kind
-					case "garbage", "close", "silent":
+					case "garbage", "close", "silent", "halfclose", "halfclose-partial":
 						k = kind
 					case "stale":
 						for _, old := range w.requests {
